@@ -113,7 +113,7 @@ ExitRange == phase = "done" => result.exit \in {0, 1, 2}
 (* ---- the invocation matrix ------------------------------------------------------- *)
 Bins == {"v2", "top", "topv1"}
 Base == [bin |-> "v2", version |-> FALSE, set |-> FALSE, mset |-> FALSE, setkeys |-> "", precision |-> 0, f |-> "",
-         o |-> FALSE, obad |-> FALSE, oin |-> "", p |-> FALSE, t |-> "", gdd |-> FALSE, yaml |-> FALSE, color |-> FALSE, nargs |-> 2, stdin |-> FALSE,
+         o |-> FALSE, obad |-> FALSE, oin |-> "", fifo |-> FALSE, p |-> FALSE, t |-> "", gdd |-> FALSE, yaml |-> FALSE, color |-> FALSE, nargs |-> 2, stdin |-> FALSE,
          in1 |-> "ok", in2 |-> "ok", pair |-> 1]
 
 (* valid diff / patch-round-trip invocations: array reading x format x yaml x color x -o x stdin x binary x pair *)
@@ -162,6 +162,10 @@ InPlaceInvocations(Pairs) ==
   { [Base EXCEPT !.bin = b, !.o = TRUE, !.oin = w, !.p = TRUE, !.f = f, !.pair = pr] : b \in Bins, w \in {"in1", "in2"}, f \in {"", "patch", "merge"}, pr \in Pairs } \cup
   { [Base EXCEPT !.bin = b, !.o = TRUE, !.oin = w, !.f = f, !.pair = pr] : b \in Bins, w \in {"in1", "in2"}, f \in {"", "merge"}, pr \in Pairs } \cup
   { [Base EXCEPT !.bin = b, !.o = TRUE, !.oin = "in1", !.t = t, !.nargs = 1, !.pair = pr] : b \in Bins, t \in {"json2yaml", "jd2patch"}, pr \in Pairs }
+
+(* the second file argument is a named pipe: a file like any other *)
+FifoInvocations(Pairs) ==
+  { [Base EXCEPT !.bin = b, !.fifo = TRUE, !.p = p, !.set = st, !.pair = pr] : b \in Bins, p \in BOOLEAN, st \in BOOLEAN, pr \in Pairs }
 
 TransInvocations(Pairs) ==
   { [Base EXCEPT !.bin = b, !.t = t, !.nargs = IF s THEN 0 ELSE 1, !.stdin = s, !.o = o, !.pair = pr] :
